@@ -375,6 +375,7 @@ class World(object):
             w.nested_integrate += 1
             if w.nested_integrate > 1:
                 w.probe("terminal_rollback")
+                w.op_counts["nested_integrate"] = w.op_counts.get("nested_integrate", 0) + 1
             try:
                 return orig(*a, **kw)
             finally:
